@@ -50,6 +50,9 @@ type c01Msg struct {
 }
 
 type c01Case struct {
+	// HighID (with Logical): 256..258 channels are set up first, so that the
+	// channel under test has an id that does not fit one byte
+	HighID   int      `json:"channels_set_up_before,omitempty"`
 	Logical  bool     `json:"logical_channel"` // use a channel with id > 0
 	Messages []c01Msg `json:"messages"`
 }
@@ -201,12 +204,33 @@ func c01Run(c *Ctx, cs c01Case) {
 	chanID := uint16(0)
 	if cs.Logical {
 		// peer: acknowledge SETUP with a header-only PROTACK on the same id
+		setups := 0
+		badSetup := ""
 		k.tr.OnWrite = func(rec xport.WriteRec) {
 			h, err := xport.ParseHeader(rec.Data)
 			if err == nil && h.Type == byte(tds.TDS_BUF_SETUP) {
-				k.tr.Feed(xport.Header{Type: byte(tds.TDS_BUF_PROTACK), Status: xport.EOM, Length: 8, Channel: h.Channel}.Bytes())
+				// ids are handed out in order: the n-th setup is for id n.
+				// The acknowledgement goes to that id, so that a setup
+				// packet carrying another id does not park NewChannel.
+				setups++
+				if int(h.Channel) != setups && badSetup == "" {
+					badSetup = fmt.Sprintf("the setup packet of the %d. logical channel carries channel id %d", setups, h.Channel)
+				}
+				k.tr.Feed(xport.Header{Type: byte(tds.TDS_BUF_PROTACK), Status: xport.EOM, Length: 8, Channel: uint16(setups)}.Bytes())
 			}
 		}
+		defer func() {
+			if badSetup != "" {
+				r.Violate("wrong-channel-id/setup-packet", badSetup, cs)
+			}
+		}()
+		for i := 0; i < cs.HighID; i++ {
+			if _, err := k.conn.NewChannel(); err != nil {
+				r.Count("logical_channel_setup_failed", 1)
+				break
+			}
+		}
+		k.tr.TakeWrites()
 		lc, err := k.conn.NewChannel()
 		k.tr.OnWrite = nil
 		if err != nil {
@@ -549,6 +573,27 @@ func runC01(c *Ctx) {
 		}
 		c01Run(c, cs)
 		r.Count("long_lived_channel_cases", 1)
+	}
+	// a channel whose id needs two bytes, and messages of exactly 255, 256,
+	// 257 and 512 full packets (counters of one byte)
+	{
+		rnd := rt.NewRand(c.Seed, "c01/wide")
+		cs := c01Case{Logical: true, HighID: 256 + rnd.Intn(3)}
+		for _, kd := range [][2]int{{2, 0}, {1, 1}, {3, -1}} {
+			cs.Messages = append(cs.Messages, c01GenMsg(rnd, 512, kd[0], kd[1]))
+		}
+		c01Run(c, cs)
+		r.Count("channel_ids_beyond_one_byte", 1)
+		for _, logical := range []bool{false, true} {
+			cs := c01Case{Logical: logical}
+			for _, kk := range []int{255, 256, 257, 512} {
+				m := c01GenMsg(rnd, 256, kk, 0)
+				m.AbortedBefore, m.RefusedAt = false, 0
+				cs.Messages = append(cs.Messages, m, c01GenMsg(rnd, 256, 1, -1))
+			}
+			c01Run(c, cs)
+			r.Count("messages_of_256_or_more_full_packets", 4)
+		}
 	}
 	runSockLegC01(c)
 }
